@@ -100,7 +100,9 @@ func c02(c *an.Check) {
 			}
 		}
 		c.Require(okF && n == 2, "PROVENANCE", "peer.NewSignatureWithHashedData records the signed hash type and the signature bytes", sign, "", n, "Signature{HashType: hashType, SigData: Sign(body)}", "the Signature object does not record the hash type that was signed / the bytes Sign returned")
-		c.Gate(an.GateSpec{Construct: "peer.NewSignatureWithHashedData sign call", Fn: sign, Sink: func(s *an.State, ins ssa.Instruction) bool { return an.IsCallTo(ins, an.R("crypto", "PrivKey", "Sign")) },
+		c.Gate(an.GateSpec{Construct: "peer.NewSignatureWithHashedData sign call", Fn: sign, Sink: func(s *an.State, ins ssa.Instruction) bool {
+			return an.IsCallTo(ins, an.R("crypto", "PrivKey", "Sign"))
+		},
 			Reqs: []an.Req{an.CallOK("HashType.Validate ok", an.R("hash", "HashType", "Validate"))}})
 	}
 	// NewSignature hashes with the same type it passes on
@@ -127,7 +129,7 @@ func c02(c *an.Check) {
 
 func init() {
 	register(&Def{ID: "C02", Run: c02,
-		Explain: "Decides on SSA: (MIRROR) NewSignatureWithHashedData and VerifyWithPublic join the same three operands (context, decimal hash type, digest) with the same separator; on the verify side the digest is hash.Sum(ht,data) for the very ht value that is written into the body; the Signature object records the signed hash type; NewSignature hashes with the type it signs; (R1) PubKey.Verify / PrivKey.Sign are reached only past the hash-type and empty-signature rejections; Signature.Validate succeeds only past its three rejections; (SIBLING) the HashType switches agree (UNKNOWN and undeclared values are rejected everywhere).",
-		NotCov:  "that signatures under different keys/contexts/data do not verify is a property of Ed25519 and the digest functions (trusted); 'verifies exactly when' is decided only as equality of the two constructions.",
+		Explain:     "Decides on SSA: (MIRROR) NewSignatureWithHashedData and VerifyWithPublic join the same three operands (context, decimal hash type, digest) with the same separator; on the verify side the digest is hash.Sum(ht,data) for the very ht value that is written into the body; the Signature object records the signed hash type; NewSignature hashes with the type it signs; (R1) PubKey.Verify / PrivKey.Sign are reached only past the hash-type and empty-signature rejections; Signature.Validate succeeds only past its three rejections; (SIBLING) the HashType switches agree (UNKNOWN and undeclared values are rejected everywhere).",
+		NotCov:      "that signatures under different keys/contexts/data do not verify is a property of Ed25519 and the digest functions (trusted); 'verifies exactly when' is decided only as equality of the two constructions.",
 		Assumptions: commonAssumptions})
 }
